@@ -372,6 +372,33 @@ def flow_cases(draw):  # noqa: C901, PLR0912, PLR0915
         r = draw(st.sampled_from(fits + fits + list(range(nr))))
         # optionally re-state the (unchanged) cache next to the remote
         prefixes.append({"key": key, "cache": inh["cache"] if draw(st.integers(0, 3)) == 0 else None, "remote": r})
+    # a plain tracked file under another remote (same cache) whose content equals a file inside a tracked directory
+    tdirs_r = [k for k in tdirs if resolve(prefixes, k)[1]["remote"] is not None]
+    if tdirs_r and draw(st.integers(0, 3)) == 0:
+        dk = tdirs_r[draw(st.integers(0, len(tdirs_r) - 1))]
+        node = _get(ws, dk)
+        while isinstance(node, dict):
+            names = sorted(node)
+            node = node[names[draw(st.integers(0, len(names) - 1))]]
+        nm = draw(_NAMES)
+        if nm not in ws:
+            dres = resolve(prefixes, dk)[1]
+            if nr == 1:
+                nr = 2
+                cache_of_remote.append(dres["cache"])
+            others = [i for i in range(nr) if i != dres["remote"]]
+            paired = {}
+            for p in prefixes:
+                pr = resolve(prefixes, p["key"])[1]
+                if pr["remote"] is not None:
+                    paired.setdefault(pr["remote"], set()).add(pr["cache"])
+            good = [i for i in others if paired.get(i, set()) <= {dres["cache"]}]
+            r2 = draw(st.sampled_from(good + good + others))
+            ws[nm] = node
+            tracked.append([nm])
+            inh = resolve(prefixes, [nm])[1]
+            prefixes.append({"key": [nm], "cache": None if inh["cache"] == dres["cache"] else dres["cache"],
+                             "remote": r2})
     order = draw(st.permutations(list(range(len(prefixes)))))
     prefixes = [prefixes[i] for i in order]
 
@@ -385,6 +412,7 @@ def flow_cases(draw):  # noqa: C901, PLR0912, PLR0915
         "cache_kinds": [draw(st.sampled_from(ops.STORE_KINDS)) for _ in range(nc)],
         "remote_kinds": [draw(st.sampled_from(ops.STORE_KINDS)) for _ in range(nr)],
         "remote_index": draw(st.booleans()),
+        "cache_tmp": draw(st.booleans()),
         "pre": [[draw(st.integers(0, 7)), draw(st.sampled_from(["full", "files", "one"]))]
                 for _ in range(draw(st.sampled_from([0, 0, 1, 2])))],
         "fail": sorted(draw(st.sets(st.integers(0, 23), min_size=1, max_size=3))) if plan == "fail" else [],
@@ -463,7 +491,8 @@ def run_flow(case, ctx):  # noqa: C901, PLR0912, PLR0915
         wsdir = os.path.join(d, "ws")
         gen.materialise(case["ws"], wsdir)
         croots = [os.path.join(d, f"c{i}") for i in range(nc)]
-        caches = [ops.make_odb(k, croots[i]) for i, k in enumerate(case["cache_kinds"])]
+        cconf = {"tmp_dir": os.path.join(d, "ctmp")} if case.get("cache_tmp") else {}
+        caches = [ops.make_odb(k, croots[i], **cconf) for i, k in enumerate(case["cache_kinds"])]
         # remotes of the save phase are never touched (save only uses the cache role)
         remotes0 = [ops.make_odb(k, os.path.join(d, f"r{i}")) for i, k in enumerate(case["remote_kinds"])]
 
@@ -692,7 +721,7 @@ def run_flow(case, ctx):  # noqa: C901, PLR0912, PLR0915
         before, inj, froots, after2, new2 = P["before"], P["inj"], P["froots"], P["after2"], P["new2"]
 
         def mk_stores():
-            return ([ops.make_odb(k, croots[i]) for i, k in enumerate(case["cache_kinds"])],
+            return ([ops.make_odb(k, croots[i], **cconf) for i, k in enumerate(case["cache_kinds"])],
                     [ops.make_odb(k, rroots[i], **rconf) for i, k in enumerate(case["remote_kinds"])])
 
         # Behind a manifest known finding the search goes on with the entries that no shaped remote requests
@@ -903,6 +932,17 @@ def run_flow(case, ctx):  # noqa: C901, PLR0912, PLR0915
             cl.append("remote-prepopulated")
         if case["remote_index"]:
             cl.append("remote-index")
+        if case.get("cache_tmp"):
+            cl.append("cache-tmp-dir")
+        # a plain file under one remote whose content equals a file listed by a directory under another remote,
+        # both fed from one cache
+        for k, e in m.entries.items():
+            if e["isdir"] or m.res[k]["remote"] is None:
+                continue
+            if any(e2["isdir"] and e["oid"] in e2["listed"] and m.res[k2]["cache"] == m.res[k]["cache"]
+                   and m.res[k2]["remote"] not in (None, m.res[k]["remote"]) for k2, e2 in m.entries.items()):
+                cl.append("plain-file-twin-of-dir-file-on-other-remote")
+                break
         if case["cache_index"]:
             cl.append("collection-index")
         for kk in sorted(set(case["cache_kinds"])):
